@@ -134,7 +134,7 @@ def tabulate():
     return cells
 
 
-FILE = '''From PND Require Import Lib.Base Spec.Ps38Table Model.FsmCell Properties.C04.
+FILE = '''From PND Require Import Lib.Base Spec.Ps38Table Model.FsmCell Properties.C04 Model.Fsm Corr.CorrFsm.
 Open Scope N_scope.
 Definition cells : list cell :=
   [ %s ].
@@ -142,6 +142,10 @@ Definition bad_cells := Eval vm_compute in failing conforms cells.
 Print bad_cells.
 Definition is_complete := Eval vm_compute in (if complete cells then [] else [0]).
 Print is_complete.
+(* the control model of C05 / C12 / C13 reproduces every observed cell *)
+Definition bad_model := Eval vm_compute in failing model_matches cells.
+Print bad_model.
+Example model_ok : bad_model = []. Proof. vm_compute. reflexivity. Qed.
 Theorem observed_ok : check_cells cells = true.
 Proof. vm_compute. reflexivity. Qed.
 Theorem C04_now :
@@ -162,6 +166,7 @@ def main(tier, seed):
     rc, out, _dt = run.compile_all()['Cells']
     bad = common.parse_printed_list(out, 'bad_cells')
     comp = common.parse_printed_list(out, 'is_complete')
+    badm = common.parse_printed_list(out, 'bad_model')
     cov = dec.coverage
     cov['evaluations'] = len(cells)
     cov['exhaustive'] = True
@@ -169,7 +174,13 @@ def main(tier, seed):
     cov['rule'] = ('exhaustive: 13 states x 19 events x 2 roles x each applicable primitive kind on the real '
                    'StateMachine with recording transport/queue/timer; distinct = (state,event,role) triples')
     cov['samples'] = [h for _t, h in cells[100:103]]
-    dec.obligations(2, 0)
+    dec.obligations(3, 0)
+    if badm:
+        for i in badm[:20]:
+            dec.report(dict(kind='control-model-differs-from-cell', theorem='Corr.CorrFsm.model_matches (tie of Model.Fsm to the code)',
+                            **cells[i][1]), no_input=True)
+    elif badm == []:
+        cov['discharged'] += 1
     if bad is None or comp is None:
         dec.report(dict(kind='cells-file-broken', detail=out[-2000:], theorem='Cells.v (generated)'), no_input=True)
     else:
